@@ -675,6 +675,17 @@ def rule_err_state_preserving(F, ev, R, config, rule="R-ERR-STATE-PRESERVING"):
                 R.add(rule, config, b.key, "write-needs-len==parameter_count", okg, "" if okg else "parameters are stored without the length check len(params) == number of model parameters", s.get("span"))
         if b.name == "set_params" and not writes:
             R.bad(rule, config, b.key, "stores-parameters", "set_params never stores the parameters", b.j["span"])
+        if b.name == "set_params" and writes:
+            # Ok ⇒ the given vector IS the current one: every path to a success return passes the store. A store skipped
+            # under a value comparison (`if current != new`) is not the identity on floats (0.0 == −0.0, NaN ≠ NaN)
+            pw = [(bi, si, s) for bi, si, s in writes if any(e["k"] == "field" and e.get("name") == sm["params"] for e in s["place"]["proj"])]
+            wblocks = sorted(set(bi for bi, si, s in (pw or writes)))
+            oks = [bi for bi, si, s in b.stmts() if s["k"] == "assign" and s["rv"]["k"] == "agg" and s["rv"].get("variant") == "Ok" and s["place"]["l"] == 0]
+            free = b.reachable(0, avoid=wblocks) if 0 not in wblocks else set()
+            skipped = [o for o in oks if o in free]
+            R.add(rule, config, b.key, "Ok-implies-stored", not skipped, "" if not skipped else
+                  "a path through set_params returns Ok without storing the given parameters (the store is conditional): afterwards params() and the "
+                  "evaluations need not be those of the vector that was accepted", b.j["span"])
     R.floor(rule, config, 2, "SeparableModel::set_params write")
 
 
